@@ -453,6 +453,8 @@ pub struct Shared {
     /// while none is free; `call` uses the reserved one, or grabs a free one, or fails with "no
     /// connection available". None = the unbounded key store.
     pub pool: Option<Arc<Mutex<usize>>>,
+    /// `call` without readiness panics (as tower's limit / buffer services do) instead of failing
+    pub panic_unready: bool,
 }
 
 impl Shared {
@@ -470,6 +472,7 @@ impl Shared {
             wrong_waker: Vec::new(),
             record_events: true,
             pool: None,
+            panic_unready: false,
         }
     }
     pub fn push(&mut self, task: usize, val: usize, kind: EvKind) {
@@ -761,8 +764,13 @@ impl Future for ProvFuture {
             return Poll::Ready(Err(Box::new(HarnessError(format!("{} key store: no connection available", PROVIDER_MSG_PREFIX)))));
         }
         if this.unready {
+            if sh.panic_unready {
+                drop(sh);
+                panic!("max requests in-flight; poll_ready must be called first (the key store is a tower service with a concurrency limit)");
+            }
+            // (not a failure of the key store: it was used against its contract)
             sh.push(this.task, this.val, EvKind::FutPoll {
-                result: "err",
+                result: "unready",
             });
             return Poll::Ready(Err(Box::new(HarnessError(format!("{} service called before poll_ready returned Ready", PROVIDER_MSG_PREFIX)))));
         }
